@@ -236,8 +236,15 @@ def replay_generic(binary, mode, props=None):
         parts = cid.split(":")
         if len(parts) != 3:
             return []
-        mk = bx if binary == "boxcar_mon" else wk
-        j = mk("replay", mode, "chk", 1, 1, 600) if binary == "boxcar_mon" else wk("replay", mode, "chk", 1, 1, 600, props=props)
+        # the job that produced the witness tells which driver has to re-run the case
+        job = (rj.get("job") or "").split("/")[0]
+        m = mode
+        for known in (("lin", "stress", "drop", "layout", "exhaust") if binary == "boxcar_mon" else ("directed", "random")):
+            if known in job:
+                m = known
+        if binary != "boxcar_mon" and job == "nucleo-chk":
+            m = "random"
+        j = bx("replay", m, "chk", 1, 1, 600, extra=["--quiet-panics", "1"]) if binary == "boxcar_mon" else wk("replay", m, "chk", 1, 1, 600, props=props)
         j["args"] = [a.replace("{seed}", parts[0]).replace("{shard}", parts[1]) for a in j["args"]] + ["--replay-case", parts[2]]
         return [j]
     return f
